@@ -962,6 +962,10 @@ func (vc *FuncVC) boxFuncs(t types.Type) (box, unbox string) {
 	if !vc.boxDecl[key] {
 		vc.boxDecl[key] = true
 		tid := vc.typeID(t)
+		if _, isPtr := t.Underlying().(*types.Pointer); isPtr {
+			pv := vc.declFun("ptrval", []string{SIface}, SInt)
+			vc.preDecls = append(vc.preDecls, fmt.Sprintf("(assert (forall ((x Int)) (! (= (%s (%s x)) x) :pattern ((%s x)))))", pv, box, box))
+		}
 		vc.preDecls = append(vc.preDecls,
 			fmt.Sprintf("(assert (forall ((x %s)) (! (and (= (%s (%s x)) x) (= (tagOf (%s x)) %s) (not (= (%s x) nil_iface))) :pattern ((%s x)))))", sort, unbox, box, box, tid.S, box, box),
 			fmt.Sprintf("(assert (forall ((i Iface)) (! (=> (and (not (= i nil_iface)) (= (tagOf i) %s)) (= (%s (%s i)) i)) :pattern ((%s i)))))", tid.S, box, unbox, unbox))
@@ -1429,7 +1433,11 @@ func cellImmutableIn(cell ssa.Value, parent *ssa.Function) bool {
 					if instrIndex(s) > instrIndex(m) {
 						return false
 					}
-				} else if !sb.Dominates(mb) || reachable(mb, sb) {
+				} else if !sb.Dominates(mb) {
+					return false
+				} else if sb != c.Block() && reachableAvoiding(mb, sb, c.Block()) {
+					// (a store in a later loop iteration goes to a new cell when every way
+					// back to it re-executes the allocation)
 					return false
 				}
 			}
@@ -1462,8 +1470,13 @@ func onlyLoadsOrCapture(v ssa.Value) bool {
 	return true
 }
 
-func reachable(from, to *ssa.BasicBlock) bool {
+func reachable(from, to *ssa.BasicBlock) bool { return reachableAvoiding(from, to, nil) }
+
+func reachableAvoiding(from, to, avoid *ssa.BasicBlock) bool {
 	seen := map[*ssa.BasicBlock]bool{}
+	if avoid != nil {
+		seen[avoid] = true
+	}
 	stack := append([]*ssa.BasicBlock{}, from.Succs...)
 	for len(stack) > 0 {
 		x := stack[len(stack)-1]
